@@ -202,7 +202,8 @@ def run(chk):
                 .replace("MaxCloses = 1", "MaxCloses = 1\n  SyncOnRollover = " + sync) \
                 .replace(INV, "INVARIANTS NeverCorrupt StopShowsAllowedState VisibleBlocksComplete IdleConsistent")
             r = vf.tlc("Store", "CrashPower", "power.cfg", cfg_text=pcfg, workers=8, timeout=1200, jvm=JVM)
-            viol = [l for l in r["tail"].splitlines() if l.startswith("Error: Invariant")]
+            with open(r["outfile"], errors="replace") as fo:
+                viol = [l.strip() for l in fo if l.startswith("Error: Invariant")]
             chk.notes.append("informational (power-failure semantics, outside C17's 'the process stops'): CrashPower.tla with "
                              "SyncOnRollover=%s: %s" % (sync, (viol[0] + " - a block written before a roll-over and indexed by a "
                              "later flush is visible but its unsynced bytes are lost; reconcileDB does not notice") if viol
